@@ -26,7 +26,9 @@ def rt(names):
 def run(tier):
     rep = Report(PID, tier, "exploration")
     rng = random.Random(vlib.seed())
-    g = tlc("mc/MC_Positions", workers=4, timeout=900, xmx="4g")
+    # flat = construct x position, plus sibling statements around the construct
+    sibstride = 1
+    g = tlc("mc/MC_Positions", workers=4, timeout=900, xmx="4g", env={"SIBSTRIDE": str(sibstride), "OFFSET": str(rng.randrange(sibstride))})
     tlc_ok(g, "MC_Positions")
     progs = g.tagged("CASE")
     if len(progs) < 1000:
